@@ -225,6 +225,15 @@ def gen_C06(g, tier):
             if n <= 40:
                 for m in (n, n + 3, max(1, n - 1), 1, 2 * n + 1):
                     cs.append(Case('o.c06.worker %d %d %d %s %d %s' % (n, m, g.randint(0, 3), dhex(cv), k, hexes(xs)), 'orc', 'worker-from-object-with-other-size', check=small_hex_check(1e-12)))
+    # one sample object over one rectangular-modulated mode, re-queried after changes of sample size and of the mode's statistics
+    for _ in range(12 if tier == 'quick' else 300):
+        w = g.randint(2, 9); n0 = g.randint(1, 10); steps = g.randint(2, 6)
+        toks = []
+        for _s in range(steps):
+            mut = g.choice([0, 1, 1, 1, 2])
+            toks += [str(g.randint(1, 12)), str(g.randint(0, 2)), str(mut)] + ([dhex(g.r.uniform(0.2, 2.0))] if mut == 2 else [])
+        S = g.choice(stokes_family(g, 3))[1]
+        cs.append(Case('o.c06.rehistory %s %s %d %d %d %s' % (hexes(S), dhex(g.r.uniform(0.3, 1.5)), w, n0, steps, ' '.join(toks)), 'orc', 'single-sample-requeried-after-mode-changes', check=small_hex_check(1e-12)))
     for smooth in (1, 2, 3, 4, 7):
         for ns in (1, 2, 5):
             cs.append(Case('o.c06.boxcarsample %d %d %d' % (smooth, ns, smooth + 3), 'orc', 'boxcar-sample', check=small_hex_list(2)))
